@@ -869,6 +869,10 @@ func (s *Server) RemoteHello(
 	s.syncShallowClocks = req.ShallowClocks
 	s.syncMutations = req.SyncMutations
 
+	// per-mutation updates collected for a previous connection are covered by
+	// this hello
+	s.tracer.dataQueue = nil
+
 	// prep the mach msg
 	export, schema, _ := s.Source.Export()
 	s.tracer.calcTrackedStates(export.StateNames)
